@@ -38,6 +38,28 @@ def count_responses(rx: bytes) -> int:
         n += 1
 
 
+def responses_at_least(n: int) -> Any:
+    """Wait condition 'n complete responses received'.  It is evaluated at every scheduler step, so the count is cached per
+    received length (re-splitting a large or, with broken code, ever-growing stream at each step is quadratic)."""
+    memo = {'len': -1, 'n': 0, 'pos': 0}
+
+    def cond(p: Any) -> bool:
+        if len(p.rx) != memo['len']:
+            from ..actors import split_http_message
+            memo['len'] = len(p.rx)
+            rx = bytes(p.rx[memo['pos']:memo['pos'] + (1 << 20)])      # continue after the last complete response
+            off = 0
+            while True:
+                r = split_http_message(rx, off, is_response=True)
+                if r is None:
+                    break
+                off = r[0]
+                memo['n'] += 1
+            memo['pos'] += off
+        return memo['n'] >= n
+    return cond
+
+
 def run_one(tape: Any, cfg: Dict[str, Any], forbid: FrozenSet[str] = frozenset()) -> Result:
     from ..actors import Origin, Peer
     from ..harness import L1, make_flags
@@ -182,7 +204,7 @@ def run_one(tape: Any, cfg: Dict[str, Any], forbid: FrozenSet[str] = frozenset()
         if packing == 'sequential':
             for i, r in enumerate(reqs):
                 script.append(('send', r, 'burst'))
-                script.append(('wait_rx', (lambda n: (lambda p: count_responses(bytes(p.rx)) >= n))(i + 1)))
+                script.append(('wait_rx', responses_at_least(i + 1)))
         elif packing == 'pipelined':
             for i, r in enumerate(reqs):
                 script.append(('send', r, 'burst'))
@@ -191,8 +213,24 @@ def run_one(tape: Any, cfg: Dict[str, Any], forbid: FrozenSet[str] = frozenset()
             script.append(('send', stream, 'burst'))
         else:
             script.append(('send', stream, 'cuts', cuts))
-        script.append(('wait_rx', lambda p: count_responses(bytes(p.rx)) >= nreq))
+        script.append(('wait_rx', responses_at_least(nreq)))
         cl = Peer(w, 'client', script, read_mode='chunky')
+        # invariants during the run: nobody receives more than was ever produced for it (duplicated data grows without bound)
+        max_client = nreq * (resp_pad + 600) + 1024
+        max_origin = 2 * len(stream) + nreq * 400 + 1024
+
+        def client_rx(p: Any) -> None:
+            if len(p.rx) > max_client and not w.failures:
+                w.fail('extra_response', role, 'client has received %d bytes, %d requests can produce at most %d'
+                       % (len(p.rx), nreq, max_client))
+        cl.on_rx = client_rx
+
+        def origin_rx(p: Any) -> None:
+            if len(p.rx) > max_origin and not w.failures:
+                w.fail('origin_got_wrong_requests', role, 'an origin connection has received %d bytes, the client sent %d in all'
+                       % (len(p.rx), len(stream)))
+        for o in origins:
+            o.on_rx = origin_rx
         # the client socket must be able to hold a whole request when packing demands one segment
         c2p = caps[2]
         if packing in ('coalesced',):
